@@ -37,6 +37,15 @@ func main() {
 		}
 		b, _ := json.MarshalIndent(p.Fingerprints(), "", " ")
 		fmt.Println(string(b))
+	case "loopsurvey":
+		p, err := core.Load()
+		if err != nil {
+			fmt.Fprintln(os.Stderr, err)
+			os.Exit(2)
+		}
+		for _, e := range rules.LoopExits(p) {
+			fmt.Println(e.String(p))
+		}
 	case "errsurvey":
 		p, err := core.Load()
 		if err != nil {
